@@ -311,6 +311,92 @@ def long_messages(m, seed=0):
     return None
 
 
+def concurrent(m, seed=0, threads=4, rounds=25, blocks=6):
+    """The property quantifies over every key and block, not over one call at a time: several threads of one process inside the
+    drivers AT THE SAME TIME (a thread pool extracting several encrypted PDFs; the module expects it -- see its cache) must each
+    get the FIPS-197 / SP 800-38A result.  Every thread has its own key / IV / message and checks every result against the
+    reference computed beforehand; the interpreter's switch interval is made tiny so that a preemption falls inside nearly every
+    block.  Sequentially correct code fails here only if it keeps working state that outlives one call (a module-level scratch
+    list, a reused buffer, a default-argument accumulator).  -> failure tuple | None"""
+    import sys
+    import threading
+    rnd = random.Random(0x7C20 + seed)
+    jobs = []
+    for t in range(threads):
+        klen = (16, 24, 32)[t % 3]
+        key, iv, data = rnd.randbytes(klen), rnd.randbytes(16), rnd.randbytes(16 * blocks)
+        c_ecb, c_cbc = ecb(key, data), cbc_enc(key, iv, data)
+        jobs.append((key, iv, data, c_ecb, c_cbc))
+    # sequential pass first: a difference seen there belongs to the sequential scopes, not to this one
+    def calls(job):
+        key, iv, data, c_ecb, c_cbc = job
+        return (("aes_ecb_encrypt", (key, data), c_ecb), ("aes_ecb_decrypt", (key, c_ecb), data),
+                ("aes_cbc_encrypt", (key, iv, data), c_cbc), ("aes_cbc_decrypt", (key, iv, c_cbc), data))
+
+    def once(job):
+        for name, args, want in calls(job):
+            try:
+                got = bytes(getattr(m, name)(*args))
+            except Skip:
+                continue
+            except Exception as e:  # noqa
+                got = f"{type(e).__name__}: {e}".encode()
+            if got != want:
+                return name, args, want, got
+        return None
+    for job in jobs:
+        if once(job) is not None:
+            return None
+    failures = []
+
+    def worker(job, which, start):
+        name, args, want = calls(job)[which]
+        try:
+            start.wait(timeout=10)
+        except Exception:  # noqa
+            return
+        fn = getattr(m, name)
+        for _ in range(rounds):
+            if failures:
+                return
+            try:
+                got = bytes(fn(*args))
+            except Skip:
+                return
+            except Exception as e:  # noqa
+                got = f"{type(e).__name__}: {e}".encode()
+            if got != want:
+                failures.append((name, args, want, got))
+                return
+    old = sys.getswitchinterval()
+    sys.setswitchinterval(1e-6)
+    try:
+        # one phase per driver (all threads inside the SAME driver, so that state private to one driver is contended too),
+        # then a mixed phase (state shared between drivers)
+        for which in (0, 1, 2, 3, None):
+            start = threading.Barrier(threads)
+            ts = [threading.Thread(target=worker, args=(job, (t % 4) if which is None else which, start), daemon=True)
+                  for t, job in enumerate(jobs)]
+            for t in ts:
+                t.start()
+            for t in ts:
+                t.join(60)
+            if failures:
+                break
+    finally:
+        sys.setswitchinterval(old)
+    if not failures:
+        return None
+    name, args, want, got = failures[0]
+    k = 16 * (_first_bad_block(got, want) or 0)
+    inputs = {"key": args[0].hex(), "data": args[-1].hex(), "first_bad_block": k // 16,
+              "schedule": f"{threads} threads of one process call the four drivers at the same time, each with its own key and message "
+                          f"(sys.setswitchinterval(1e-6)); the same call alone returns the expected value"}
+    if len(args) == 3:
+        inputs["iv"] = args[1].hex()
+    return (name, inputs, f"block {k // 16}: {want[k:k + 16].hex()}", f"block {k // 16}: {got[k:k + 16].hex()} (concurrent call)")
+
+
 def _provider():
     try:
         import pypdf._crypt_providers as providers
@@ -563,6 +649,9 @@ def find(req):
     if r is not None:
         return bad(*r)
     r = long_messages(m, int(os.environ.get("VERIF_SEED", "0") or 0)) or wrapper_long(m, cbc_enc)
+    if r is not None:
+        return bad(*r)
+    r = concurrent(m, int(os.environ.get("VERIF_SEED", "0") or 0))
     if r is not None:
         return bad(*r)
     k16, b16 = bytes(16), bytes(16)
